@@ -237,6 +237,15 @@ func (g *Gen) AutoCmd() (*Cmd, string) {
 			plainIdx = i
 		}
 	}
+	// a comma inside nested parentheses makes "the argument at position n"
+	// ambiguous; the argument-position form is only used without such commas
+	for _, a := range c.Args {
+		for _, t := range a.Toks {
+			if t == "," {
+				plainIdx = -1
+			}
+		}
+	}
 	if plainIdx >= 0 && g.R.IntN(2) == 0 {
 		v := g.Name("VAR_P")
 		c.Args[plainIdx] = &Arg{Toks: []string{v}}
